@@ -1547,6 +1547,32 @@ func genConc(prop string, seed uint64, g *gen, thorough bool) *Case {
 		for i := r.rng(1, 2); i > 0; i-- {
 			c.Faults = append(c.Faults, &simdisk.Fault{Kind: "err", Op: []string{simdisk.OpWrite, simdisk.OpSync}[r.intn(2)], FT: int(storage.TypeJournal), Nth: r.rng(1, 30), Count: r.rng(1, 2), Epoch: -1})
 		}
+	} else if prop == "C10" && r.p(0.1) {
+		// transactions among the writers while level 0 is at its pause
+		// trigger and table operations fail: OpenTransaction waits for a
+		// compaction that ends in an error, and must give the lock back
+		for i := r.rng(1, 2); i > 0; i-- {
+			c.Faults = append(c.Faults, &simdisk.Fault{Kind: "err", Op: []string{simdisk.OpWrite, simdisk.OpSync, simdisk.OpCreate, simdisk.OpOpen}[r.intn(4)], FT: int(storage.TypeTable), Nth: r.rng(2, 12), Count: r.rng(1, 6), Epoch: -1})
+		}
+		c.Knobs.WriteBuffer = r.pick(512, 1024)
+		c.Knobs.L0Trigger = r.pick(1, 2)
+		c.Knobs.L0Slowdown = c.Knobs.L0Trigger
+		c.Knobs.L0Pause = c.Knobs.L0Trigger + r.intn(2)
+		for i := r.rng(2, 4); i > 0; i-- {
+			ci := r.intn(len(c.Clients))
+			// never behind a transaction that the client leaves open, or
+			// behind its Close
+			lim := len(c.Clients[ci])
+			for i, o := range c.Clients[ci] {
+				if o.K == "txleave" || o.K == "close" {
+					lim = i
+					break
+				}
+			}
+			at := r.intn(lim + 1)
+			tx := Op{K: "tx", Commit: r.p(0.8), Body: []Op{{K: "put", Key: g.key(), Val: g.val(200)}}}
+			c.Clients[ci] = append(c.Clients[ci][:at:at], append([]Op{tx}, c.Clients[ci][at:]...)...)
+		}
 	} else if (prop == "C10" || prop == "C09") && closer < 0 && r.p(0.15) {
 		// the DB enters its persistent error state in the middle of the
 		// writer protocol: one client switches it to read-only, half of the
